@@ -12,6 +12,8 @@ usage: c15_impl.py <runname> <n> <mode> <plan-json>
       or {"after_lines": [374, 379], "kinds": ["KA"], "max": 8}
                                        every block of those kinds is interrupted right after it executed one of these source lines
                                        (a state effect, e.g. the append of 'nan'), at most max times
+      or {"list": [[k, j], ...], "rank": r}
+                                       the list form, on rank r only (several ranks)
 Prints one JSON object on the last stdout line (prefix C15JSON).
 Output library: <scratch>/esr/function_library/<runname>/compl_<n>/ .
 """
@@ -30,6 +32,9 @@ plan = json.loads(sys.argv[4]) if len(sys.argv) > 4 else []
 import signal  # noqa: E402
 import tinject  # noqa: E402
 import esr.generation.simplifier as S  # noqa: E402
+if isinstance(plan, dict) and "list" in plan:
+    # {"list": [[k, j], ...], "rank": r}: the list plan, applied on rank r only (the other ranks run undisturbed)
+    plan = plan["list"] if S.rank == int(plan.get("rank", 0)) else []
 import esr.generation.generator as G  # noqa: E402
 import esr.generation.duplicate_checker as dc  # noqa: E402
 
